@@ -133,7 +133,12 @@ func NewComponents(spec specification.Components, cfg Config) (zero Components, 
 			})
 		}
 
-		hr := NewHandlerResponse(response, OperationName(r.Name), status, cs, cfg, ifaces...)
+		// an alias shares the types of its target (its inline body type is declared by the target only)
+		typesOf := r.Name
+		if ref := r.V.Ref(); ref != nil {
+			typesOf = ref.Name
+		}
+		hr := NewHandlerResponse(response, OperationName(typesOf), status, cs, cfg, ifaces...)
 
 		if _, ok := hr.ContentJSON.Get(); ok {
 			cs.HasContentJSON = true
